@@ -25,13 +25,17 @@ fn one<const D: usize>(id: &str, rng: &mut Rng, out: &mut Out) {
     w.dt.set_delaunay_repair_policy(DelaunayRepairPolicy::Never);
     let m = [1usize, 1, 2, 4, 8, 20, 50][rng.below(7) as usize];
     let nflips = random_flips(&mut w.dt, m, rng);
-    let before = vertex_sig(&w);
+    repair_and_emit::<D>(id, &mut w, rng.chance(1, 2), ps.family, nflips, out);
+}
+
+/// call one repair entry point on `w` and emit the judged state
+fn repair_and_emit<const D: usize>(id: &str, w: &mut World<D>, advanced: bool, fam: &str, nflips: usize, out: &mut Out) {
+    let before = vertex_sig(w);
     // provenance baseline = the vertices as they are right before the repair call
     w.offered = w.dt.vertices().map(|(_, v)| (v.uuid(), *v.point().coords(), v.data.unwrap_or(0))).collect();
     // "still satisfies": Level 3 is demanded after repair only if it held before (random flips
     // can leave a negatively oriented cell, which repair is not asked to fix)
     let pre_l3 = w.dt.as_triangulation().is_valid().is_ok();
-    let advanced = rng.chance(1, 2);
     let r: Result<Result<String, String>, String> = if advanced {
         catch(|| w.dt.repair_delaunay_with_flips_advanced(DelaunayRepairHeuristicConfig::default())
             .map(|o| format!("flips={} heuristic={}", o.stats.flips_performed, o.used_heuristic() as u8))
@@ -48,16 +52,70 @@ fn one<const D: usize>(id: &str, rng: &mut Rng, out: &mut Out) {
         }
         Ok(Ok(s)) => {
             obs.push(("outcome".into(), format!("ok:{s}").replace(' ', ",")));
-            let after = vertex_sig(&w);
+            let after = vertex_sig(w);
             obs.push(("same_vertices".into(), if after == before { "1".into() } else { "0 repair changed the vertex set (uuid/data)".into() }));
             args = if pre_l3 { "expect=valid123 sphere=1 convex=1 gpdt=1".into() } else { "expect=valid12m sphere=1".into() };
         }
     }
-    let args = format!("{args} fam={} nflips={nflips} advanced={}", ps.family, advanced as u8);
+    let args = format!("{args} fam={fam} nflips={nflips} advanced={}", advanced as u8);
     w.emit_state(id, "repair", &args, &obs, out, true);
 }
 
+/// every state within `depth` legal flips of a small triangulation (breadth first, states
+/// identified by their cell sets), each handed to both repair entry points: reaches the
+/// configurations in which every violating facet is unflippable (a 4-to-4 flip would be needed),
+/// which random flip sequences hit too rarely
+fn explore<const D: usize>(id: &str, pts: &[Vec<f64>], g: usize, fam: &str, depth: usize, cap: usize, rng: &mut Rng, out: &mut Out) {
+    use delaunay::core::facet::FacetHandle;
+    use delaunay::triangulation::flips::{BistellarFlips, RidgeHandle};
+    let Some(mut w0): Option<World<D>> = hist::start_built::<D>(pts, g, rng) else { return };
+    w0.dt.set_delaunay_repair_policy(DelaunayRepairPolicy::Never);
+    let sig = |dt: &tri::DtF<D>| -> String {
+        let mut cs: Vec<String> = dt.cells().map(|(_, c)| { let mut v: Vec<String> = c.vertices().iter().filter_map(|k| dt.tds().get_vertex_by_key(*k)).map(|v| v.uuid().to_string()).collect(); v.sort(); v.join(",") }).collect();
+        cs.sort();
+        cs.join(";")
+    };
+    let mut seen: std::collections::HashSet<String> = std::collections::HashSet::new();
+    seen.insert(sig(&w0.dt));
+    let mut frontier: Vec<(tri::DtF<D>, usize)> = vec![(w0.dt.clone(), 0)];
+    let mut states: Vec<(tri::DtF<D>, usize)> = Vec::new();
+    while let Some((dt, d)) = frontier.pop() {
+        if states.len() >= cap { break; }
+        if d > 0 { states.push((dt.clone(), d)); }
+        if d >= depth { continue; }
+        let handles: Vec<(delaunay::core::triangulation_data_structure::CellKey, u8, u8)> = dt.cells().flat_map(|(ck, _)| {
+            let mut v = Vec::new();
+            for a in 0..=(D as u8) { v.push((ck, a, a)); for b in (a + 1)..=(D as u8) { v.push((ck, a, b)); } }
+            v
+        }).collect();
+        for (ck, a, b) in handles {
+            let mut c = dt.clone();
+            let ok = if a == b { catch(|| c.flip_k2(FacetHandle::new(ck, a)).is_ok()) } else if D >= 3 { catch(|| c.flip_k3(RidgeHandle::new(ck, a, b)).is_ok()) } else { Ok(false) };
+            if ok == Ok(true) && seen.insert(sig(&c)) { frontier.insert(0, (c, d + 1)); }
+        }
+    }
+    for (si, (dt, d)) in states.into_iter().enumerate() {
+        for advanced in [false, true] {
+            let mut w = World { dt: dt.clone(), ids: w0.ids.clone(), offered: vec![], removed: vec![], next_data: 900, g, check_on: false, repair_on: false, had_removal: false, had_flip: true, stale_cells: vec![] };
+            repair_and_emit::<D>(&format!("{id}_{si}_{}", advanced as u8), &mut w, advanced, fam, d, out);
+        }
+    }
+}
+
 pub fn run(cfg: &Cfg, rng: &mut Rng, out: &mut Out) {
+    // flip neighbourhoods of small 3-D inputs: a planar convex quadrilateral with two apexes (either
+    // diagonal gives a valid complex, only one is Delaunay, and going from one to the other needs
+    // a 4-to-4 flip), and small general-position sets
+    {
+        let quad: Vec<Vec<f64>> = vec![vec![3.0, 1.0, 0.0], vec![-1.0, 4.0, 0.0], vec![-5.0, -1.0, 0.0], vec![1.0, -3.0, 0.0], vec![0.0, 0.0, 10.0], vec![0.0, 0.0, -10.0]];
+        for g in [1usize, 0] { explore::<3>(&format!("xq{g}"), &quad, g, "quad_bipyramid", 4, 30, rng, out); }
+        for i in 0..(if cfg.tier == "thorough" { 6 } else { 2 }) {
+            let pts = gens::to_f(&gens::general_position(rng, 3, 6, 6), 1.0, 0.0);
+            explore::<3>(&format!("xg{i}"), &pts, 1, "general", 3, 16, rng, out);
+            let pts2 = gens::to_f(&gens::general_position(rng, 2, 7, 6), 1.0, 0.0);
+            explore::<2>(&format!("xh{i}"), &pts2, 1, "general", 3, 16, rng, out);
+        }
+    }
     let thorough = cfg.tier == "thorough";
     let n = if thorough { 1500 } else { 160 };
     for i in 0..n {
